@@ -148,8 +148,15 @@ def analyse(w, line0, col0, props, out):
                             "BAD_LEXEME not located at the offending character", cond)
                 bi += 1
             else:
+                # ... and at the START of a logical character (never in the middle of a trigraph / digraph spelling or of a
+                # splice): the offsets where a unit begins, plus the end of the token
+                starts, off = [], s
+                while off < k:
+                    starts.append(off)
+                    off += O.unit(w, off)[1]
+                starts.append(k)
                 conds = []
-                for off in range(s, k + 1):
+                for off in starts:
                     pl, pc = O.advance(line0, col0, w[:off])
                     conds.append(poly.c_and(poly.eq(h.lineno, pl), poly.eq(h.column, pc)))
                 inside = c_or(*conds)
